@@ -33,17 +33,17 @@ theorem follows_flat {σ : Type} {K : List Str} (cs : List (ClauseSem σ)) (hk :
     right
     exact ⟨c.key, c.body ++ (flat cs' ++ tail), hk c (List.mem_cons_self ..), by simp [flat, ClauseSem.text]⟩
 
-/-- the loop over local clauses is the fold of their updates -/
-theorem runClauses_local {σ : Type} (v : Verb σ) (K : List Str) (cs : List (ClauseSem σ))
-    (hk : ∀ c ∈ cs, c.key ∈ K) (hl : ∀ c ∈ cs, Local v K c) (s : σ) :
-    runClauses v (flat cs) s = .ok (cs.foldl (fun s c => c.upd s) s) := by
+/-- the loop over local clauses is the fold of their updates; then it goes on with what follows -/
+theorem runClauses_local_tail {σ : Type} (v : Verb σ) (K : List Str) (cs : List (ClauseSem σ))
+    (hk : ∀ c ∈ cs, c.key ∈ K) (hl : ∀ c ∈ cs, Local v K c) (tail : List Str) (ht : Follows K tail) (s : σ) :
+    runClauses v (flat cs ++ tail) s = runClauses v tail (cs.foldl (fun s c => c.upd s) s) := by
   induction cs generalizing s with
-  | nil => simp [flat, runClauses]
+  | nil => simp [flat]
   | cons c cs ih =>
-    have hf : Follows K (flat cs ++ []) :=
-      follows_flat cs (fun x hx => hk x (List.mem_cons_of_mem _ hx)) [] (Or.inl rfl)
-    have h1 := hl c (List.mem_cons_self ..) s (flat cs) (by simpa using hf)
-    have e : flat (c :: cs) = c.key :: (c.body ++ flat cs) := by simp [flat, ClauseSem.text]
+    have hf : Follows K (flat cs ++ tail) :=
+      follows_flat cs (fun x hx => hk x (List.mem_cons_of_mem _ hx)) tail ht
+    have h1 := hl c (List.mem_cons_self ..) s (flat cs ++ tail) hf
+    have e : flat (c :: cs) ++ tail = c.key :: (c.body ++ (flat cs ++ tail)) := by simp [flat, ClauseSem.text]
     rw [e, runClauses]
     split
     · rename_i e' h'; rw [h1] at h'; cases h'
@@ -51,15 +51,613 @@ theorem runClauses_local {σ : Type} (v : Verb σ) (K : List Str) (cs : List (Cl
       rw [h1] at h'; cases h'
       exact ih (fun x hx => hk x (List.mem_cons_of_mem _ hx)) (fun x hx => hl x (List.mem_cons_of_mem _ hx)) _
 
+theorem runClauses_nil {σ : Type} (v : Verb σ) (s : σ) : runClauses v [] s = .ok s := by
+  rw [runClauses]
+
+theorem runClauses_local {σ : Type} (v : Verb σ) (K : List Str) (cs : List (ClauseSem σ))
+    (hk : ∀ c ∈ cs, c.key ∈ K) (hl : ∀ c ∈ cs, Local v K c) (s : σ) :
+    runClauses v (flat cs) s = .ok (cs.foldl (fun s c => c.upd s) s) := by
+  have := runClauses_local_tail v K cs hk hl [] (Or.inl rfl) s
+  simpa [runClauses_nil] using this
+
 /-- **order independence**: two arrangements of the same local clauses whose updates commute give
-the same configuration -/
+the same configuration (also when more tokens `tail`, starting with a word of `K`, follow) -/
 theorem runClauses_perm {σ : Type} (v : Verb σ) (K : List Str) (cs₁ cs₂ : List (ClauseSem σ))
     (hp : cs₁.Perm cs₂) (hk : ∀ c ∈ cs₁, c.key ∈ K) (hl : ∀ c ∈ cs₁, Local v K c)
-    (hc : ∀ a ∈ cs₁, ∀ b ∈ cs₁, ∀ s, b.upd (a.upd s) = a.upd (b.upd s)) (s : σ) :
-    runClauses v (flat cs₁) s = runClauses v (flat cs₂) s := by
-  rw [runClauses_local v K cs₁ hk hl,
-    runClauses_local v K cs₂ (fun c hc' => hk c (hp.mem_iff.mpr hc')) (fun c hc' => hl c (hp.mem_iff.mpr hc'))]
+    (hc : ∀ a ∈ cs₁, ∀ b ∈ cs₁, ∀ s, b.upd (a.upd s) = a.upd (b.upd s))
+    (tail : List Str) (ht : Follows K tail) (s : σ) :
+    runClauses v (flat cs₁ ++ tail) s = runClauses v (flat cs₂ ++ tail) s := by
+  rw [runClauses_local_tail v K cs₁ hk hl tail ht,
+    runClauses_local_tail v K cs₂ (fun c hc' => hk c (hp.mem_iff.mpr hc'))
+      (fun c hc' => hl c (hp.mem_iff.mpr hc')) tail ht]
   congr 1
   exact hp.foldl_eq' (fun x hx y hy z => hc x hx y hy z) s
+
+/-! ## no absorption after a relation (`parseRelation`, `parseIndirect`) -/
+
+/-- a relation text is *closed* when it does not end with a relation word whose optional name is
+omitted (`… of framer`, `… of frame`, `… of actor`) -/
+def Closed (toks : List Str) : Prop :=
+  toks.getLast? ≠ some (str "framer") ∧ toks.getLast? ≠ some (str "frame") ∧ toks.getLast? ≠ some (str "actor")
+
+theorem closed_of_not_open {toks : List Str} (h : openRel toks = false) : Closed toks := by
+  simp only [openRel, Bool.or_eq_false_iff, beq_eq_false_iff_ne, ne_eq] at h
+  exact ⟨h.1.1, h.1.2, h.2⟩
+
+/-- what may follow a relation in context without being absorbed: nothing; or a word other than `of`
+that is reserved, or any word other than `of` when the relation is closed -/
+def RestOK (toks rest : List Str) : Prop :=
+  rest = [] ∨ ∃ k r, rest = k :: r ∧ k ≠ str "of" ∧ (isReserved k = true ∨ Closed toks)
+
+theorem frameRel_inv {n f : Str} {inner : P (Str × List Str)} {v : Str} {r : List Str}
+    (h : frameRel n f inner = .ok (v, r)) :
+    ∃ fr, inner = .ok (fr, r) ∧ ∀ r', frameRel n f (.ok (fr, r')) = .ok (v, r') := by
+  unfold frameRel at h
+  cases inner with
+  | error e => simp at h
+  | ok p =>
+    obtain ⟨fr, r0⟩ := p
+    simp only [] at h
+    split at h
+    · cases h
+    · split at h
+      · rename_i h1 h2; cases h; refine ⟨fr, rfl, fun r' => ?_⟩; simp only [frameRel, if_neg h1, if_pos h2]
+      · rename_i h1 h2; cases h; refine ⟨fr, rfl, fun r' => ?_⟩; simp only [frameRel, if_neg h1, if_neg h2]
+
+theorem actorRel_inv {n : Str} {inner : P (Str × List Str)} {v : Str} {r : List Str}
+    (h : actorRel n inner = .ok (v, r)) :
+    ∃ fr, inner = .ok (fr, r) ∧ ∀ r', actorRel n (.ok (fr, r')) = .ok (v, r') := by
+  unfold actorRel at h
+  cases inner with
+  | error e => simp at h
+  | ok p =>
+    obtain ⟨fr, r0⟩ := p
+    simp only [] at h
+    split at h
+    · cases h
+    · split at h
+      · rename_i h1 h2; cases h; refine ⟨fr, rfl, fun r' => ?_⟩; simp only [actorRel, if_neg h1, if_pos h2]
+      · rename_i h1 h2; cases h; refine ⟨fr, rfl, fun r' => ?_⟩; simp only [actorRel, if_neg h1, if_neg h2]
+
+theorem parseRelation_notof {k : Str} (r : List Str) (fn : Str) (h : k ≠ str "of") :
+    parseRelation (k :: r) fn = .ok ([], k :: r) := by
+  unfold parseRelation; simp [h]
+
+theorem parseRelation_restOK {toks rest : List Str} (fn : Str) (h : RestOK toks rest) :
+    parseRelation rest fn = .ok ([], rest) := by
+  rcases h with rfl | ⟨k, r, rfl, hk, _⟩
+  · unfold parseRelation; rfl
+  · exact parseRelation_notof r fn hk
+
+theorem RestOK.sub {toks sub rest : List Str} (h : RestOK toks rest)
+    (hs : sub = [] ∨ sub.getLast? = toks.getLast?) : RestOK sub rest := by
+  rcases h with rfl | ⟨k, r, rfl, hk, hc⟩
+  · exact Or.inl rfl
+  · refine Or.inr ⟨k, r, rfl, hk, ?_⟩
+    rcases hc with hc | hc
+    · exact Or.inl hc
+    · right
+      rcases hs with rfl | hs
+      · simp [Closed]
+      · unfold Closed at hc ⊢; rw [hs]; exact hc
+
+/-- **no absorption after a relation**: a relation that parses on its own (consuming all its tokens)
+parses to the same value in context, leaving the context untouched. -/
+theorem parseRelation_ctx (toks : List Str) (fn : Str) : ∀ v, parseRelation toks fn = .ok (v, []) →
+    ∀ rest, RestOK toks rest → parseRelation (toks ++ rest) fn = .ok (v, rest) := by
+  fun_induction parseRelation toks fn
+  case case1 => intro v h rest hr; cases h; simpa using parseRelation_restOK _ hr
+  case case2 => intro v h; cases h
+  case case3 => intro v h; cases h
+  case case4 => intro v h; cases h
+  case case5 t fn h1 rel tl h2 h3 =>
+    intro v h rest hr; cases h
+    simp only [List.cons_append, List.nil_append]
+    unfold parseRelation; simp only [if_neg h1, if_neg h2, if_pos h3]
+  case case6 t fn h1 rel tl h2 h3 h4 =>
+    intro v h rest hr; cases h
+    simp only [List.cons_append, List.nil_append]
+    unfold parseRelation; simp only [if_neg h1, if_neg h2, if_neg h3, if_pos h4]
+  case case7 t fn h1 rel h2 h3 h4 h5 =>
+    intro v h rest hr; cases h
+    simp only [List.cons_append, List.nil_append]
+    rcases hr with rfl | ⟨k, r, rfl, _, hk | hc⟩
+    · unfold parseRelation; simp only [if_neg h1, if_neg h2, if_neg h3, if_neg h4, if_pos h5]
+    · unfold parseRelation; simp only [if_neg h1, if_neg h2, if_neg h3, if_neg h4, if_pos h5]; simp [hk]
+    · exfalso; apply hc.1; simp at h5; simp [h5]
+  case case8 t fn h1 rel h2 h3 h4 h5 name tl h6 h7 =>
+    intro v h rest hr; cases h
+    simp only [List.cons_append, List.nil_append]
+    unfold parseRelation; simp only [if_neg h1, if_neg h2, if_neg h3, if_neg h4, if_pos h5, if_pos h6, if_pos h7]
+  case case9 => intro v h; cases h
+  case case10 => intro v h; cases h
+  case case11 t fn h1 rel h2 h3 h4 h5 h6 =>
+    intro v h rest hr
+    simp only [List.cons_append, List.nil_append]
+    rcases hr with rfl | ⟨k, r, rfl, hk2, hk | hc⟩
+    · unfold parseRelation; simp only [if_neg h1, if_neg h2, if_neg h3, if_neg h4, if_neg h5, if_pos h6]; exact h
+    · obtain ⟨fr, hfr, hall⟩ := frameRel_inv h
+      cases hfr
+      unfold parseRelation
+      simp only [if_neg h1, if_neg h2, if_neg h3, if_neg h4, if_neg h5, if_pos h6]
+      simp [hk, parseRelation_notof r [] hk2, hall]
+    · exfalso; apply hc.2.1; simp at h6; simp [h6]
+  case case12 t fn h1 rel h2 h3 h4 h5 h6 name tl h7 h8 ih =>
+    intro v h rest hr
+    obtain ⟨fr, hfr, hall⟩ := frameRel_inv h
+    have := ih fr hfr rest (hr.sub (by cases tl with | nil => exact Or.inl rfl | cons a b => right; simp))
+    simp only [List.cons_append, List.nil_append]
+    unfold parseRelation
+    simp only [if_neg h1, if_neg h2, if_neg h3, if_neg h4, if_neg h5, if_pos h6, if_pos h7, if_pos h8, this, hall]
+  case case13 => intro v h; cases h
+  case case14 t fn h1 rel h2 h3 h4 h5 h6 name tl h7 ih =>
+    intro v h rest hr
+    obtain ⟨fr, hfr, hall⟩ := frameRel_inv h
+    have := ih fr hfr rest (hr.sub (by right; simp))
+    simp only [List.cons_append] at this ⊢
+    unfold parseRelation
+    simp only [if_neg h1, if_neg h2, if_neg h3, if_neg h4, if_neg h5, if_pos h6, if_neg h7, this, hall]
+  case case15 t fn h1 rel h2 h3 h4 h5 h6 =>
+    intro v h rest hr
+    simp only [List.cons_append, List.nil_append]
+    have hact : rel = str "actor" := by
+      simp at h2 h3 h4 h5 h6
+      exact h2 h3 h4 h5 h6
+    rcases hr with rfl | ⟨k, r, rfl, hk2, hk | hc⟩
+    · unfold parseRelation; simp only [if_neg h1, if_neg h2, if_neg h3, if_neg h4, if_neg h5, if_neg h6]; exact h
+    · obtain ⟨fr, hfr, hall⟩ := actorRel_inv h
+      cases hfr
+      unfold parseRelation
+      simp only [if_neg h1, if_neg h2, if_neg h3, if_neg h4, if_neg h5, if_neg h6]
+      simp [hk, parseRelation_notof r [] hk2, hall]
+    · exfalso; apply hc.2.2; simp [hact]
+  case case16 t fn h1 rel h2 h3 h4 h5 h6 name tl h7 h8 ih =>
+    intro v h rest hr
+    obtain ⟨fr, hfr, hall⟩ := actorRel_inv h
+    have := ih fr hfr rest (hr.sub (by cases tl with | nil => exact Or.inl rfl | cons a b => right; simp))
+    simp only [List.cons_append, List.nil_append]
+    unfold parseRelation
+    simp only [if_neg h1, if_neg h2, if_neg h3, if_neg h4, if_neg h5, if_neg h6, if_pos h7, if_pos h8, this, hall]
+  case case17 => intro v h; cases h
+  case case18 t fn h1 rel h2 h3 h4 h5 h6 name tl h7 ih =>
+    intro v h rest hr
+    obtain ⟨fr, hfr, hall⟩ := actorRel_inv h
+    have := ih fr hfr rest (hr.sub (by right; simp))
+    simp only [List.cons_append] at this ⊢
+    unfold parseRelation
+    simp only [if_neg h1, if_neg h2, if_neg h3, if_neg h4, if_neg h5, if_neg h6, if_neg h7, this, hall]
+
+
+/-- `parseIndirect`: a path with its relation that parses alone parses the same in context -/
+theorem parseIndirect_ctx (node : Bool) (body : List Str) (a : Str)
+    (h : parseIndirect node body = .ok (a, [])) (rest : List Str) (hr : RestOK body.tail rest) :
+    parseIndirect node (body ++ rest) = .ok (a, rest) := by
+  cases body with
+  | nil => simp [parseIndirect] at h
+  | cons path rel =>
+    unfold parseIndirect at h ⊢
+    simp only [List.cons_append] at h ⊢
+    split at h
+    · cases h
+    · rename_i h1
+      split at h
+      · cases h
+      · rename_i h2
+        simp only [if_neg h1, if_neg h2]
+        cases hp : parseRelation rel [] with
+        | error e => rw [hp] at h; cases h
+        | ok q =>
+          obtain ⟨relation, rest'⟩ := q
+          rw [hp] at h
+          simp only [] at h
+          cases hi : indirectPath node path relation with
+          | error e => rw [hi] at h; cases h
+          | ok pth =>
+            rw [hi] at h
+            simp only [] at h
+            cases h
+            rw [parseRelation_ctx rel [] relation hp rest hr]
+            simp only [hi]
+
+/-! ## no absorption: name parts, field lists, direct data -/
+
+theorem takeParts_ctx (stops : List Str) (body : List Str) (h : takeParts stops body = (body, []))
+    (rest : List Str) (hr : rest = [] ∨ ∃ k r, rest = k :: r ∧ stops.contains k = true) :
+    takeParts stops (body ++ rest) = (body, rest) := by
+  induction body with
+  | nil =>
+    rcases hr with rfl | ⟨k, r, rfl, hk⟩
+    · simp [takeParts]
+    · have hk' : k ∈ stops := by simpa using hk
+      simp [takeParts, hk']
+  | cons t tl ih =>
+    unfold takeParts at h
+    split at h
+    · cases h
+    · rename_i hs
+      simp only [Prod.mk.injEq, List.cons.injEq, true_and] at h
+      have := ih (Prod.ext h.1 h.2)
+      simp only [List.cons_append]
+      unfold takeParts
+      simp only [if_neg hs, this]
+
+theorem scanFields_ctx_some {body : List Str} {fs r : List Str} (h : scanFields body = some (fs, r))
+    (rest : List Str) : scanFields (body ++ rest) = some (fs, r ++ rest) := by
+  induction body generalizing fs r with
+  | nil => simp [scanFields] at h
+  | cons t tl ih =>
+    unfold scanFields at h
+    simp only [List.cons_append]
+    unfold scanFields
+    split at h
+    · rename_i h1; cases h; simp [h1]
+    · rename_i h1
+      split at h
+      · cases h
+      · rename_i h2
+        simp only [if_neg h1, if_neg h2]
+        split at h
+        · rename_i fs' r' hs; cases h; rw [ih hs]
+        · cases h
+
+/-- no field list, and the scan stopped inside the clause at a reserved word or ran to its end:
+in context it stops at the same place, provided the word that follows is reserved and is not `in` -/
+theorem scanFields_ctx_none {body : List Str} (h : scanFields body = none)
+    (rest : List Str) (hr : rest = [] ∨ ∃ k r, rest = k :: r ∧ isReserved k = true ∧ k ≠ str "in") :
+    scanFields (body ++ rest) = none := by
+  induction body with
+  | nil =>
+    rcases hr with rfl | ⟨k, r, rfl, hk, hk2⟩
+    · simp [scanFields]
+    · have : (k == str "in") = false := by simpa using hk2
+      simp [scanFields, this, hk]
+  | cons t tl ih =>
+    unfold scanFields at h
+    simp only [List.cons_append]
+    unfold scanFields
+    split at h
+    · cases h
+    · rename_i h1
+      split at h
+      · rename_i h2; simp only [if_neg h1, if_pos h2]
+      · rename_i h2
+        simp only [if_neg h1, if_neg h2]
+        split at h
+        · cases h
+        · rename_i hs; rw [ih hs]
+
+/-- what may follow a field list / source / direct data: nothing, or a reserved word (not `in`, not `of`) -/
+def ResFollow (rest : List Str) : Prop :=
+  rest = [] ∨ ∃ k r, rest = k :: r ∧ isReserved k = true ∧ k ≠ str "in" ∧ k ≠ str "of"
+
+theorem ResFollow.restOK {rest : List Str} (h : ResFollow rest) (toks : List Str) : RestOK toks rest := by
+  rcases h with rfl | ⟨k, r, rfl, hk, _, hof⟩
+  · exact Or.inl rfl
+  · exact Or.inr ⟨k, r, rfl, hof, Or.inl hk⟩
+
+theorem parseFields_ctx {body fs r : List Str} (h : parseFields body = .ok (fs, r)) (rest : List Str)
+    (hr : ResFollow rest) : parseFields (body ++ rest) = .ok (fs, r ++ rest) := by
+  unfold parseFields at h ⊢
+  cases hs : scanFields body with
+  | none =>
+    rw [hs] at h; cases h
+    have : scanFields (body ++ rest) = none := by
+      apply scanFields_ctx_none hs
+      rcases hr with rfl | ⟨k, r, rfl, hk, hin, _⟩
+      · exact Or.inl rfl
+      · exact Or.inr ⟨k, r, rfl, hk, hin⟩
+    rw [this]
+  | some p =>
+    obtain ⟨fs', r'⟩ := p
+    rw [hs] at h
+    rw [scanFields_ctx_some hs rest]
+    simp only [] at h ⊢
+    split at h
+    · cases h
+    · rename_i h1
+      split at h
+      · rename_i h2; cases h; simp only [if_neg h1, if_pos h2]
+      · cases h
+
+theorem parseSource_ctx {body : List Str} {a : Str × List Str} (h : parseSource body = .ok (a, []))
+    (rest : List Str) (hr : ResFollow rest) : parseSource (body ++ rest) = .ok (a, rest) := by
+  unfold parseSource at h ⊢
+  cases hf : parseFields body with
+  | error e => rw [hf] at h; cases h
+  | ok p =>
+    obtain ⟨fs, r⟩ := p
+    rw [hf] at h
+    rw [parseFields_ctx hf rest hr]
+    simp only [] at h ⊢
+    cases hi : parseIndirect false r with
+    | error e => rw [hi] at h; cases h
+    | ok q =>
+      obtain ⟨pth, r'⟩ := q
+      rw [hi] at h
+      simp only [] at h
+      cases h
+      rw [parseIndirect_ctx false r pth hi rest (hr.restOK _)]
+
+theorem directPairs_ctx (more : List Str) (acc : List (Str × Val)) :
+    ∀ pairs, directPairs more acc = .ok (pairs, []) →
+    ∀ rest, (rest = [] ∨ ∃ k r, rest = k :: r ∧ isReserved k = true) →
+      directPairs (more ++ rest) acc = .ok (pairs, rest) := by
+  fun_induction directPairs more acc
+  case case1 acc =>
+    intro pairs h rest hr; cases h
+    rcases hr with rfl | ⟨k, r, rfl, hk⟩
+    · simp [directPairs]
+    · cases r with
+      | nil => simp [directPairs, hk]
+      | cons v r' => simp [directPairs, hk]
+  case case2 => intro pairs h; cases h
+  case case3 => intro pairs h; cases h
+  case case4 => intro pairs h; cases h
+  case case5 => intro pairs h; cases h
+  case case6 => intro pairs h; cases h
+  case case7 f v rest0 acc h1 h2 val hv ih =>
+    intro pairs h rest hr
+    have := ih pairs h rest hr
+    simp only [List.cons_append]
+    unfold directPairs
+    simp only [if_neg h1, if_neg h2, hv, this]
+
+theorem directFirst_ctx {body : List Str} {fv : Str × Str} {more : List Str}
+    (h : directFirst body = .ok (fv, more)) (hmore : ∀ k r, more = k :: r → isReserved k = false)
+    (rest : List Str) (hr : rest = [] ∨ ∃ k r, rest = k :: r ∧ isReserved k = true) :
+    directFirst (body ++ rest) = .ok (fv, more ++ rest) := by
+  unfold directFirst at h
+  split at h
+  · cases h
+  · rename_i v
+    split at h
+    · cases h
+    · rename_i hv
+      cases h
+      rcases hr with rfl | ⟨k, r, rfl, hk⟩
+      · simp [directFirst, hv]
+      · simp [directFirst, hv, hk]
+  · rename_i f v rest0
+    split at h
+    · cases h
+    · rename_i hf
+      split at h
+      · rename_i hv
+        cases h
+        exact absurd hv (by simp [hmore v rest0 rfl])
+      · rename_i hv
+        cases h
+        simp [directFirst, hf, hv]
+
+/-- `parseDirect`: direct data that parses alone parses the same before a reserved word -/
+theorem parseDirect_ctx {body : List Str} {d : List (Str × Val)} (h : parseDirect body = .ok (d, []))
+    (rest : List Str) (hr : rest = [] ∨ ∃ k r, rest = k :: r ∧ isReserved k = true) :
+    parseDirect (body ++ rest) = .ok (d, rest) := by
+  unfold parseDirect at h ⊢
+  cases hf : directFirst body with
+  | error e => rw [hf] at h; cases h
+  | ok p =>
+    obtain ⟨⟨field, vtext⟩, more⟩ := p
+    rw [hf] at h
+    simp only [] at h
+    cases hc : convert2StrBoolPathCoordPointNum vtext with
+    | error e => rw [hc] at h; cases h
+    | ok val =>
+      rw [hc] at h
+      simp only [] at h
+      cases hp : directPairs more [(field, val)] with
+      | error e => rw [hp] at h; cases h
+      | ok q =>
+        obtain ⟨pairs, r'⟩ := q
+        rw [hp] at h
+        simp only [] at h
+        have hr' : r' = [] := by
+          unfold directFinish at h
+          simp only [] at h
+          split at h
+          · cases h
+          · split at h
+            · cases h; rfl
+            · cases h
+        subst hr'
+        -- the token after the first field/value is not reserved: otherwise the pair loop stops there
+        have hmore : ∀ k r, more = k :: r → isReserved k = false := by
+          intro k r e
+          subst e
+          cases hk : isReserved k with
+          | false => rfl
+          | true =>
+            exfalso
+            cases r with
+            | nil => simp [directPairs, hk] at hp
+            | cons v r2 => simp [directPairs, hk] at hp
+        rw [directFirst_ctx hf hmore rest hr]
+        simp only [hc]
+        rw [directPairs_ctx more _ pairs hp rest hr]
+        simp only []
+        unfold directFinish at h ⊢
+        simp only [] at h ⊢
+        split at h
+        · cases h
+        · rename_i h1
+          split at h
+          · rename_i h2; cases h; simp only [if_neg h1, if_pos h2]
+          · cases h
+
+/-! ## from "parses on its own" to "local" -/
+
+/-- a clause built with `clauseOf`: if it parses alone (all tokens consumed) and its value parser is
+insensitive to what follows, the clause gives the same configuration in context -/
+theorem clauseOf_ctx {α β σ : Type} {parse : List Str → P (α × List Str)} {check : α → P β}
+    {upd : σ → β → σ} {body rest : List Str} {s s' : σ}
+    (h : clauseOf parse check upd body s = .ok (s', []))
+    (hp : ∀ a, parse body = .ok (a, []) → parse (body ++ rest) = .ok (a, rest)) :
+    clauseOf parse check upd (body ++ rest) s = .ok (s', rest) := by
+  unfold clauseOf at h ⊢
+  cases hb : parse body with
+  | error e => rw [hb] at h; cases h
+  | ok p =>
+    obtain ⟨a, r⟩ := p
+    rw [hb] at h
+    simp only [] at h
+    cases hc : check a with
+    | error e => rw [hc] at h; cases h
+    | ok b =>
+      rw [hc] at h
+      simp only [] at h
+      cases h
+      rw [hp a hb]
+      simp only [hc]
+
+/-- the update a `clauseOf` clause makes does not depend on the state it starts from -/
+theorem clauseOf_state {α β σ : Type} {parse : List Str → P (α × List Str)} {check : α → P β}
+    {upd : σ → β → σ} {body : List Str} {s s' : σ} {r : List Str}
+    (h : clauseOf parse check upd body s = .ok (s', r)) :
+    ∃ b, s' = upd s b ∧ ∀ t, clauseOf parse check upd body t = .ok (upd t b, r) := by
+  unfold clauseOf at h
+  cases hb : parse body with
+  | error e => rw [hb] at h; cases h
+  | ok p =>
+    obtain ⟨a, r0⟩ := p
+    rw [hb] at h
+    simp only [] at h
+    cases hc : check a with
+    | error e => rw [hc] at h; cases h
+    | ok b =>
+      rw [hc] at h
+      simp only [] at h
+      cases h
+      exact ⟨b, rfl, fun t => by simp [clauseOf, hb, hc]⟩
+
+theorem oneTok_ctx {body : List Str} {a : Str} (h : oneTok body = .ok (a, [])) (rest : List Str) :
+    oneTok (body ++ rest) = .ok (a, rest) := by
+  cases body with
+  | nil => simp [oneTok] at h
+  | cons t tl =>
+    simp only [oneTok] at h
+    cases h
+    simp [oneTok]
+
+theorem takeParts_append (stops body : List Str) :
+    (takeParts stops body).1 ++ (takeParts stops body).2 = body := by
+  induction body with
+  | nil => simp [takeParts]
+  | cons t tl ih =>
+    unfold takeParts
+    split
+    · simp
+    · simp [ih]
+
+theorem asName_ctx {fix : Bool} {body : List Str} {a : Str} (h : asName fix body = .ok (a, []))
+    (rest : List Str) (hr : rest = [] ∨ ∃ k r, rest = k :: r ∧ (doAsStops fix).contains k = true) :
+    asName fix (body ++ rest) = .ok (a, rest) := by
+  unfold asName at h ⊢
+  simp only [Except.ok.injEq, Prod.mk.injEq] at h
+  have happ := takeParts_append (doAsStops fix) body
+  rw [h.2, List.append_nil] at happ
+  have hst : takeParts (doAsStops fix) body = (body, []) := Prod.ext happ h.2
+  rw [takeParts_ctx _ body hst rest hr]
+  simp only [Except.ok.injEq, Prod.mk.injEq, and_true]
+  rw [← h.1, hst]
+
+/-! ## order independence for clause texts -/
+
+/-- the configuration after one clause run on its own -/
+def run1 {σ : Type} (v : Verb σ) (k : Str) (b : List Str) (s : σ) : σ :=
+  match v.clause k b s with
+  | .ok (s', _) => s'
+  | .error _ => s
+
+def semOf {σ : Type} (v : Verb σ) (c : List Str) : ClauseSem σ :=
+  match c with
+  | k :: b => ⟨k, b, run1 v k b⟩
+  | [] => ⟨[], [], id⟩
+
+/-- **locality of a clause text**: it parses on its own from any state (consuming all its tokens) and
+parses to the same configuration, leaving the continuation untouched, whenever the continuation is
+empty or starts with one of the words `K` -/
+def LocalText {σ : Type} (v : Verb σ) (K : List Str) (c : List Str) : Prop :=
+  ∃ k b, c = k :: b ∧ ∀ s rest, Follows K rest →
+    ∃ s', v.clause k b s = .ok (s', []) ∧ v.clause k (b ++ rest) s = .ok (s', rest)
+
+/-- clauses with different connectives change different parts of the configuration -/
+def Commutes {σ : Type} (v : Verb σ) (K : List Str) : Prop :=
+  ∀ k1 k2 b1 b2 s s1 s2 s12 s21, k1 ∈ K → k2 ∈ K → k1 ≠ k2 →
+    v.clause k1 b1 s = .ok (s1, []) → v.clause k2 b2 s1 = .ok (s12, []) →
+    v.clause k2 b2 s = .ok (s2, []) → v.clause k1 b1 s2 = .ok (s21, []) → s12 = s21
+
+theorem flat_semOf {σ : Type} (v : Verb σ) (cs : List (List Str)) (h : ∀ c ∈ cs, c ≠ []) :
+    flat (cs.map (semOf v)) = cs.flatten := by
+  induction cs with
+  | nil => rfl
+  | cons c cs ih =>
+    have hc := h c (List.mem_cons_self ..)
+    cases c with
+    | nil => exact absurd rfl hc
+    | cons k b =>
+      simp only [List.map_cons, List.flatten_cons]
+      rw [← ih (fun x hx => h x (List.mem_cons_of_mem _ hx))]
+      simp [flat, semOf, ClauseSem.text]
+
+theorem mem_keysOf {cs : List (List Str)} {k : Str} {b : List Str} (h : (k :: b) ∈ cs) : k ∈ keysOf cs := by
+  unfold keysOf
+  rw [List.mem_filterMap]
+  exact ⟨k :: b, h, rfl⟩
+
+/-- **C15 for clause texts.** Clause texts with pairwise different connectives, each local with respect
+to the connectives actually present (and the words `E` that may start what follows the clauses), for a
+verb whose clauses commute: all arrangements give the same result, and the clauses themselves always
+parse (the result is that of the tail run from the folded configuration). -/
+theorem texts_order_independent {σ : Type} (v : Verb σ) (K E : List Str) (cs₁ cs₂ : List (List Str))
+    (hp : cs₁.Perm cs₂) (hK : ∀ k ∈ keysOf cs₁, k ∈ K)
+    (hd : ∀ a ∈ cs₁, ∀ b ∈ cs₁, a ≠ b → a.head? ≠ b.head?)
+    (hl : ∀ c ∈ cs₁, LocalText v (keysOf cs₁ ++ E) c) (hc : Commutes v K)
+    (tail : List Str) (ht : Follows E tail) (s : σ) :
+    runClauses v (cs₁.flatten ++ tail) s = runClauses v (cs₂.flatten ++ tail) s ∧
+    ∃ cfg, runClauses v (cs₁.flatten ++ tail) s = runClauses v tail cfg := by
+  have hne : ∀ c ∈ cs₁, c ≠ [] := by
+    intro c hcm; obtain ⟨k, b, e, _⟩ := hl c hcm; rw [e]; simp
+  have hne2 : ∀ c ∈ cs₂, c ≠ [] := fun c hcm => hne c (hp.mem_iff.mpr hcm)
+  rw [← flat_semOf v cs₁ hne, ← flat_semOf v cs₂ hne2]
+  have ht' : Follows (keysOf cs₁ ++ E) tail := by
+    rcases ht with rfl | ⟨k, r, hk, rfl⟩
+    · exact Or.inl rfl
+    · exact Or.inr ⟨k, r, List.mem_append_right _ hk, rfl⟩
+  have hkey : ∀ c ∈ cs₁.map (semOf v), c.key ∈ keysOf cs₁ ++ E := by
+    intro c hcm
+    obtain ⟨t, ht, rfl⟩ := List.mem_map.mp hcm
+    obtain ⟨k, b, e, _⟩ := hl t ht
+    subst e
+    exact List.mem_append_left _ (mem_keysOf ht)
+  have hloc : ∀ c ∈ cs₁.map (semOf v), Local v (keysOf cs₁ ++ E) c := by
+    intro c hcm
+    obtain ⟨t, ht, rfl⟩ := List.mem_map.mp hcm
+    obtain ⟨k, b, e, hloc⟩ := hl t ht
+    subst e
+    intro s rest hr
+    obtain ⟨s', h1, h2⟩ := hloc s rest hr
+    simp only [semOf, run1, h1]
+    exact h2
+  have hcomm : ∀ a ∈ cs₁.map (semOf v), ∀ b ∈ cs₁.map (semOf v), ∀ s, b.upd (a.upd s) = a.upd (b.upd s) := by
+    intro a ha b hb s
+    obtain ⟨ta, hta, rfl⟩ := List.mem_map.mp ha
+    obtain ⟨tb, htb, rfl⟩ := List.mem_map.mp hb
+    by_cases e : ta = tb
+    · subst e; rfl
+    · obtain ⟨ka, ba, ea, hla⟩ := hl ta hta
+      obtain ⟨kb, bb, eb, hlb⟩ := hl tb htb
+      subst ea; subst eb
+      have hkne : ka ≠ kb := by
+        have := hd _ hta _ htb e
+        simpa using this
+      obtain ⟨s1, h1, _⟩ := hla s [] (Or.inl rfl)
+      obtain ⟨s12, h12, _⟩ := hlb s1 [] (Or.inl rfl)
+      obtain ⟨s2, h2, _⟩ := hlb s [] (Or.inl rfl)
+      obtain ⟨s21, h21, _⟩ := hla s2 [] (Or.inl rfl)
+      have := hc ka kb ba bb s s1 s2 s12 s21 (hK _ (mem_keysOf hta)) (hK _ (mem_keysOf htb)) hkne h1 h12 h2 h21
+      simp only [semOf, run1, h1, h12, h2, h21]
+      exact this
+  refine ⟨runClauses_perm v _ _ _ (hp.map _) hkey hloc hcomm tail ht' s, ?_⟩
+  exact ⟨_, runClauses_local_tail v _ _ hkey hloc tail ht' s⟩
 
 end Ioflo.Clauses
